@@ -11,7 +11,9 @@ def nx1(F, R):
         if e.kind == "sodg_field_write" and e.field == "Sodg::next_v":
             n += 1
             fk = e.fn_key()
-            if fk != "Sodg::next_id":
+            if G.building_a_copy(e, fk):
+                R.ok("NX1", e.where(), "allocator position of a freshly constructed copy set in clone()")
+            elif fk != "Sodg::next_id":
                 R.bad("NX1", "NX1/%s/allocator-position-written" % fk, e.where(),
                       "the allocator position is written outside next_id(): ids handed out earlier can be handed out again",
                       {"value": show(e.val, e.body)})
@@ -360,6 +362,25 @@ def cl1(F, R):
     for site, kind, s in b.sites():
         if kind == "stmt" and s["k"] == "assign" and s["rv"]["k"] == "aggregate" and s["rv"].get("adt") == "Sodg":
             aggs.append((site, b.expr_rvalue(s["rv"], site)))
+    fresh_writes = set()
+    if not aggs:
+        # a fresh graph from the constructor, then every field assigned: `let mut g = Self::empty(..); g.f = self.f.clone(); … g`
+        rets0 = returned_exprs(b)
+        fresh = strip_load(rets0[0]) if len(rets0) == 1 else None
+        if fresh is not None and fresh[0] == "call" and fresh[1].split("::")[-1] == "empty" and "Sodg" in fresh[1]:
+            got = {}
+            for e2 in Collector(F).collect(b):
+                if e2.kind == "write" and e2.body is b:
+                    loc = strip_load(e2.loc)
+                    if loc[0] == "field" and loc[2].startswith("Sodg::") and strip_sites(strip_load(loc[1])) == strip_sites(fresh):
+                        fresh_writes.add(e2.site)
+                        f = loc[2].split("::")[1]
+                        if e2.uncond and not e2.conditions() and f not in got:
+                            got[f] = e2.val
+                        else:
+                            got[f] = ("?",)
+            aggs = [(b.returns[0] if False else (0, 0), ("agg", "Sodg", "Sodg", tuple(got.items())))]
+            site_fresh = True
     if len(aggs) != 1:
         R.bad("CL1", "CL1/Sodg::clone/aggregate-count", b.where(), "cannot establish CL1: clone() builds %d Sodg values" % len(aggs))
         return
@@ -387,10 +408,12 @@ def cl1(F, R):
     R.floor("CL1", "fields copied by clone()", n + sum(1 for v in R.violations if v["rule"] == "CL1"), len(fields), b.where())
     # the value returned is that aggregate
     rets = returned_exprs(b)
-    if not (len(rets) == 1 and rets[0][0] == "agg" and rets[0][1] == "Sodg"):
+    if not (len(rets) == 1 and rets[0][0] == "agg" and rets[0][1] == "Sodg") and not fresh_writes:
         R.bad("CL1", "CL1/Sodg::clone/returns-something-else", b.where(), "clone() does not return the field-wise copy it builds")
     # no other effect
     for s2, st in b.writes():
+        if s2 in fresh_writes:
+            continue
         R.bad("CL4", "CL4/Sodg::clone/write", b.where(s2), "clone() writes memory (%s)" % show(b.expr_place(st["lhs"], s2), b))
 
 
